@@ -1,6 +1,6 @@
 """C06 -- grouping and aggregation follow Spark semantics.
 
-T1  translate/c01_facts.py + translate/c06_facts.py -> Gen/C01Facts.v, Gen/C06Facts.v
+T1  translate/c06_facts.py (generate_c01_core + generate) -> Gen/C01Facts.v (core clause-ordering facts), Gen/C06Facts.v
 Prf coq/props/C06.v : gcfg_ok / ncfg_ok / cube_idx instantiation; C06_partial_chain (all programs of C01 operations and
     aggregation calls, all inputs), C06_agg_step, C06_partial_cube, C06_cube_sets, C06_partial_names, data-level theorems
 T2  exported sqlglot tree (plain + grouped SELECTs) == model stages up to the verified normal form nfs   (per program, all data)
@@ -15,7 +15,7 @@ import random
 
 from vlib import core, rel
 from vlib.core import strlit, listlit, natlit
-from translate import c01_facts, c06_facts
+from translate import c06_facts
 from checks import c06_ops as c01
 
 HEADER = """From SF Require Import Model.ChainCheck C06.AggCheck.
@@ -1012,11 +1012,11 @@ def run(ctx: core.Ctx):
     # ---- T1
     t1_ok = True
     try:
-        text1, facts1 = c01_facts.generate(core.REPO)
-        ctx.gen("C01Facts", text1, [f for f in facts1 if f["name"] in ("rank", "wrap_needed_df", "wrap_needed_group", "new_kind", "init_wraps")])
+        text1, facts1 = c06_facts.generate_c01_core(core.REPO)
+        ctx.gen("C01Facts", text1, facts1)
     except Exception as ex:
-        ctx.broken("T1:c01_facts", f"{type(ex).__name__}: {ex}")
-        ctx.gen("C01Facts", open(core.VERIF + "/translate/c01_facts_pinned.v").read())
+        ctx.broken("T1:c01_core_facts", f"{type(ex).__name__}: {ex}")
+        ctx.gen("C01Facts", open(core.VERIF + "/translate/c06_c01core_pinned.v").read())
         t1_ok = False
     try:
         text6, facts6 = c06_facts.generate(core.REPO)
@@ -1041,7 +1041,7 @@ def run(ctx: core.Ctx):
             ctx.coqc(p)
     if not os.path.exists(ctx.build + "/gen/C06Facts.vo"):
         # the regenerated facts do not even type-check: fall back to the pinned ones so that the search can run
-        ctx.gen("C01Facts", open(core.VERIF + "/translate/c01_facts_pinned.v").read())
+        ctx.gen("C01Facts", open(core.VERIF + "/translate/c06_c01core_pinned.v").read())
         ctx.gen("C06Facts", open(core.VERIF + "/translate/c06_facts_pinned.v").read())
         for p in gen_files:
             ctx.coqc(p)
